@@ -26,6 +26,13 @@ MCConfigsSmall ==
 MCConfigsCond ==
     [ck : {"int"}, cv : {-1, 1, 2}, pk : {"int"}, pv : {0, 1}, ws : {0}, we : {0}, cm : {"none", "blank", "expr"}]
 
+(* settings under which a clock set back (Limiter!SetBack) matters: periods, a window, counts *)
+MCConfigsSetBack ==
+    [ck : {"int"}, cv : {-1, 2}, pk : {"int"}, pv : {0, 1, 2}, ws : {0}, we : {0}, cm : {"none"}]
+      \cup {[ck |-> "int", cv |-> -1, pk |-> "int", pv |-> 1, ws |-> 2, we |-> 3, cm |-> "none"],
+            [ck |-> "absent", cv |-> 0, pk |-> "absent", pv |-> 0, ws |-> 0, we |-> 0, cm |-> "expr"],
+            [ck |-> "int", cv |-> 3, pk |-> "absent", pv |-> 0, ws |-> 0, we |-> 0, cm |-> "none"]}
+
 (* the single setting in which the pre-fix race is shortest to show *)
 MCConfigsRace == {[ck |-> "int", cv |-> 1, pk |-> "int", pv |-> 0, ws |-> 0, we |-> 0, cm |-> "none"]}
 =============================================================================
